@@ -88,7 +88,14 @@ def cases(shard, tier):
                                        'chunk': chunk}
         return
     seqs = [TEMPLATES[t] for t in shard['templates']]
-    for il in _interleavings(seqs):
+    ils = list(_interleavings(seqs))
+    # file-header sequence numbers that do not ascend in creation order (the files stay in creation order, each with
+    # its own rows): for the sequential, the alternating and the reversed-sequential interleaving
+    for il in (ils[0], ils[len(ils) // 2], ils[-1]):
+        for seqnos in ('descending', 'equal', 'rotated'):
+            yield {'kind': 'lf', 'mode': shard['mode'], 'templates': shard['templates'], 'order': il, 'wdata': None,
+                   'seqnos': seqnos}
+    for il in ils:
         # data passed to write() next to the inline arrays: nothing, an unrelated array, or an array overriding the
         # (equally named) data set of every logical file
         for wdata in ((None, 'extra', 'override') if shard['mode'] == 'distinct' else (None,)):
@@ -101,7 +108,8 @@ def cases(shard, tier):
 
 def lf_spec(c):
     k = len(c['templates'])
-    ops = [{'op': 'lf', 'h': f'L{i}', 'kw': {'fh_id': f'LOGICAL-FILE-{i}', 'fh_sequence_number': i + 1}} for i in range(k)]
+    sq = {'descending': lambda i: k - i, 'equal': lambda i: 1, 'rotated': lambda i: (i + 1) % k + 1}.get(c.get('seqnos'), lambda i: i + 1)
+    ops = [{'op': 'lf', 'h': f'L{i}', 'kw': {'fh_id': f'LOGICAL-FILE-{i}', 'fh_sequence_number': sq(i)}} for i in range(k)]
     mode = c['mode']
 
     def sn(i, kind):
@@ -220,5 +228,5 @@ def run_case(c):
 def _brief(c):
     if c['kind'] == 'lf':
         order = ' '.join(f"L{i}.{TEMPLATES[c['templates'][i]][p]}" for i, p in c['order'])
-        return {'mode': c['mode'], 'templates': c['templates'], 'order': order, 'wdata': c.get('wdata'), 'win': c.get('win')}
+        return {'mode': c['mode'], 'templates': c['templates'], 'order': order, 'wdata': c.get('wdata'), 'win': c.get('win'), 'seqnos': c.get('seqnos')}
     return c
